@@ -825,7 +825,9 @@ def _check(ctx):
         handle = {src(t) for n, c in arm for t in (gr.node(n).ast.targets if isinstance(gr.node(n).ast, ast.Assign) else [])}
         fc = _F(ctx, AIO, f"{cls}.callLater")
         gc = ctx.cfg(fc)
-        read_in_guard = {src(x) for t in gc.nodes if t.kind == "test" for x in walk_local(t.ast) if isinstance(x, ast.Attribute) and src(x.value) == "self"}
+        # attributes the guards of callLater read - directly, or sampled into a local first (`at = self._x` ... `if at is None or at > t`)
+        read_in_guard = {src(x) for t in gc.nodes if t.kind == "test" for e_ in (t.ast, resolve_locals(fc, t.ast)) for x in walk_local(e_)
+                         if isinstance(x, ast.Attribute) and src(x.value) == "self"}
         markers = sorted({src(t) for n_ in gr.nodes if n_.kind == "stmt" and isinstance(n_.ast, ast.Assign) for t in n_.ast.targets
                           if isinstance(t, ast.Attribute) and src(t.value) == "self"} & read_in_guard - handle)
         ctx.need(markers, "the attribute that records for when the timer is armed (set in _reschedule, tested in callLater)")
